@@ -488,12 +488,12 @@ func relationChecked(p *Prog, fn *ssa.Function, at ssa.Instruction, base string)
 				return false
 			}
 			sc := site.Common().StaticCallee()
-			if sc == nil || !chk[sc] {
+			if sc == nil || len(chk[sc]) == 0 {
 				return false
 			}
-			// archetype argument must be the same table as base: compare paths modulo the access struct
-			for _, a := range site.Common().Args {
-				if samePathBase(apath(a), base) {
+			// the checked argument must be the same table as base: compare paths modulo the access struct
+			for _, rc := range chk[sc] {
+				if rc.param < len(site.Common().Args) && samePathBase(apath(site.Common().Args[rc.param])+rc.suffix, base) {
 					return true
 				}
 			}
@@ -578,26 +578,34 @@ func flagKnownAt(p *Prog, b *ssa.BasicBlock, base string) bool {
 // relationCheckers: functions that return normally only if their *archetype argument has the relation flag set and
 // its relation id equals their ID argument (discovered by shape: an id comparison whose failing edge never returns,
 // under a known flag).
-func relationCheckers(p *Prog) map[*ssa.Function]bool {
-	out := map[*ssa.Function]bool{}
+type relChecker struct {
+	param  int
+	suffix string
+}
+
+// relationCheckers: functions without results that return normally only if the relation test (flag and id) of one of
+// their parameters holds: an *archetype parameter, or the current table of a *Query parameter (its `access` field).
+func relationCheckers(p *Prog) map[*ssa.Function][]relChecker {
+	out := map[*ssa.Function][]relChecker{}
 	for _, fn := range p.Funcs {
-		if len(fn.Params) < 2 || fn.Signature.Results().Len() != 0 {
+		if len(fn.Params) < 2 || fn.Signature.Results().Len() != 0 || fn.Blocks == nil {
 			continue
 		}
-		var archParam *ssa.Parameter
-		for _, pr := range fn.Params {
-			if typeName(pr.Type()) == "archetype" {
-				archParam = pr
+		for i, pr := range fn.Params {
+			suffix := ""
+			switch typeName(pr.Type()) {
+			case "archetype":
+			case "Query":
+				suffix = ".access"
+			default:
+				continue
 			}
-		}
-		if archParam == nil {
-			continue
-		}
-		base := archParam.Name()
-		mf := &MustFlow{Fn: fn, EdgeGen: func(b *ssa.BasicBlock, k int) bool { return relationTestEdge(p, b, k, base) }}
-		mf.Run()
-		if mf.AtAllReturns() {
-			out[fn] = true
+			base := pr.Name() + suffix
+			mf := &MustFlow{Fn: fn, EdgeGen: func(b *ssa.BasicBlock, k int) bool { return relationTestEdge(p, b, k, base) }}
+			mf.Run()
+			if mf.AtAllReturns() {
+				out[fn] = append(out[fn], relChecker{i, suffix})
+			}
 		}
 	}
 	return out
